@@ -632,12 +632,12 @@ func (m *lfsModule) streamDownloadWithVerify(r *http.Request, w http.ResponseWri
 		}
 	}
 
-	if written > expectedSize {
-		m.logger.Error("LFS download size exceeded envelope — possible bucket compromise",
+	if written != expectedSize {
+		m.logger.Error("LFS download size differs from envelope — possible bucket compromise",
 			"bucket", logSafe(bucket), "key", logSafe(key), "expected_size", expectedSize, "read_at_least", written)
 		m.tracker.EmitDownloadIntegrityFailed(requestID, bucket, key, "stream", "sha256", expectedSHA, "", written, expectedSize)
 		m.lfsWriteHTTPError(w, requestID, "", http.StatusBadGateway, "integrity_failure",
-			"S3 object exceeds envelope-declared size; refusing to serve")
+			"S3 object size differs from envelope-declared size; refusing to serve")
 		return
 	}
 
